@@ -15,7 +15,7 @@ META = {
         "a case is non-trivial when the field has a non-zero cell (>= 2 cells for kinds "
         "0 and 2)."
     ),
-    "cases": {"quick": 1500, "thorough": 48000},
+    "cases": {"quick": 1500, "thorough": 192000},
     "workers": {"quick": 8, "thorough": 16},
     "timeout": {"quick": 600, "thorough": 5400},
     "deciding": [
